@@ -1161,6 +1161,299 @@ theorem chien_run (F : GF.GF) (sigma : Poly) (ne : Nat) (D : ρ) : ∀ (n i : Na
         · simp only [hv, if_false]
           exact ih (i + 1) acc fuel (by omega) (by omega)
 
+/-! ### the Euclidean algorithm of the decoder on model states -/
+
+/-- what a failing decoder step means for the enclosing Go function (`DErr`: the decoder's own failure reasons) -/
+def failD {γ : Type} (c : γ) (lift : Fault → γ) : DErr → γ
+  | .base (.panic w) => lift (.panic w)
+  | .base .fuel => lift .fuel
+  | _ => c
+
+/-- a decoder step as the outcome of a loop body -/
+def stepD (dflt : ρ) : DRes τ → Ctl τ ρ
+  | .ok t => .next t
+  | .error e => failD (.ret dflt) Ctl.panic e
+
+theorem mapS_failD (R : τ → σ) (c : ρ) (e : DErr) :
+    mapS R (failD (Ctl.ret c) Ctl.panic e : Ctl τ ρ) = failD (Ctl.ret c) Ctl.panic e := by
+  cases e with
+  | base f => cases f <;> rfl
+  | _ => rfl
+
+theorem failD_base {γ : Type} (c : γ) (lift : Fault → γ) (e : Fault) : failD c lift (.base e) = failK c lift e := by
+  cases e <;> rfl
+
+/-- one round of the inner division loop of `runEuclideanAlgorithm` (state: r, q — the order of the Go locals) -/
+def edivStep (F : GF.GF) (rLast : Poly) (dlt : Nat) (D : ρ) (st : Poly × Poly) : Ctl (Poly × Poly) ρ :=
+  if degree st.1 ≥ degree rLast && !isZero st.1 then
+    stepE D (do
+      let lead ← getCoefficient st.1 (degree st.1)
+      let scale ← F.mul lead dlt
+      let monomial ← buildMonomial (degree st.1 - degree rLast) scale
+      let q' ← addOrSubtract st.2 monomial
+      let polynomial ← multiplyByMonomial F rLast (degree st.1 - degree rLast) scale
+      let r' ← addOrSubtract st.1 polynomial
+      pure (r', q'))
+  else .brk st
+
+theorem euclidDivLoop_succ (F : GF.GF) (rLast : Poly) (dlt : Nat) (m : Nat) (q r : Poly) :
+    euclidDivLoop F rLast dlt (m + 1) q r =
+      if degree r ≥ degree rLast && !isZero r then
+        (do
+          let lead ← getCoefficient r (degree r)
+          let scale ← F.mul lead dlt
+          let monomial ← buildMonomial (degree r - degree rLast) scale
+          let q' ← addOrSubtract q monomial
+          let polynomial ← multiplyByMonomial F rLast (degree r - degree rLast) scale
+          let r' ← addOrSubtract r polynomial
+          pure (r', q')) >>= fun t => euclidDivLoop F rLast dlt m t.2 t.1
+      else .ok (q, r) := by
+  rw [euclidDivLoop]
+  split
+  · simp only [bind_assoc, pure_bind]
+  · rfl
+
+/-- the inner loop on model states is the model's `euclidDivLoop` run on the SAME fuel (exhaustion included) -/
+theorem edivStep_run (F : GF.GF) (rLast : Poly) (dlt : Nat) (D : ρ) : ∀ (n : Nat) (q r : Poly),
+    whileLoop (edivStep F rLast dlt D) n (r, q) =
+      match euclidDivLoop F rLast dlt n q r with
+      | .ok t => .brk (t.2, t.1)
+      | .error e => failK (.ret D) Ctl.panic e := by
+  intro n
+  induction n with
+  | zero => intro q r; rfl
+  | succ n ih =>
+    intro q r
+    rw [whileLoop_succ, euclidDivLoop_succ]
+    unfold edivStep
+    simp only []
+    by_cases hc : (decide (degree r ≥ degree rLast) && !isZero r) = true
+    · simp only [hc, if_true]
+      generalize (do
+          let lead ← getCoefficient r (degree r)
+          let scale ← F.mul lead dlt
+          let monomial ← buildMonomial (degree r - degree rLast) scale
+          let q' ← addOrSubtract q monomial
+          let polynomial ← multiplyByMonomial F rLast (degree r - degree rLast) scale
+          let r' ← addOrSubtract r polynomial
+          pure (r', q') : Res (Poly × Poly)) = blk
+      cases blk with
+      | error e => cases e <;> rfl
+      | ok t => simp only [stepE_ok]; exact ih t.2 t.1
+    · simp only [hc, if_false]
+      rfl
+
+/-- more fuel does not change a run that did not exhaust its fuel -/
+theorem euclidDivLoop_mono (F : GF.GF) (rLast : Poly) (dlt : Nat) : ∀ (m n : Nat) (q r : Poly), m ≤ n →
+    euclidDivLoop F rLast dlt m q r ≠ .error .fuel → euclidDivLoop F rLast dlt n q r = euclidDivLoop F rLast dlt m q r := by
+  intro m
+  induction m with
+  | zero => intro n q r _ h; exact absurd rfl h
+  | succ m ih =>
+    intro n q r hn hnf
+    obtain ⟨n, rfl⟩ : ∃ k, n = k + 1 := ⟨n - 1, by omega⟩
+    rw [euclidDivLoop_succ] at hnf ⊢
+    rw [euclidDivLoop_succ]
+    by_cases hc : (decide (degree r ≥ degree rLast) && !isZero r) = true
+    · simp only [hc, if_true] at hnf ⊢
+      generalize (do
+          let lead ← getCoefficient r (degree r)
+          let scale ← F.mul lead dlt
+          let monomial ← buildMonomial (degree r - degree rLast) scale
+          let q' ← addOrSubtract q monomial
+          let polynomial ← multiplyByMonomial F rLast (degree r - degree rLast) scale
+          let r' ← addOrSubtract r polynomial
+          pure (r', q') : Res (Poly × Poly)) = blk at hnf ⊢
+      cases blk with
+      | error e => rfl
+      | ok t => exact ih n t.2 t.1 (by omega) hnf
+    · rw [if_neg hc, if_neg hc]
+
+theorem edivStep_inv {F : GF.GF} {rLast : Poly} {dlt : Nat} {D : ρ} {t t' : Poly × Poly}
+    (ht : t.1 ≠ [] ∧ t.2 ≠ []) (h : edivStep F rLast dlt D t = .next t') : t'.1 ≠ [] ∧ t'.2 ≠ [] := by
+  unfold edivStep at h
+  split at h
+  · simp only [bind, Except.bind] at h
+    cases h1 : getCoefficient t.1 (degree t.1) with
+    | error e => simp only [h1] at h; cases e <;> cases h
+    | ok lead' =>
+      simp only [h1] at h
+      cases h2 : GF.GF.mul F lead' dlt with
+      | error e => simp only [h2] at h; cases e <;> cases h
+      | ok scale =>
+        simp only [h2] at h
+        cases h4 : buildMonomial (degree t.1 - degree rLast) scale with
+        | error e => simp only [h4] at h; cases e <;> cases h
+        | ok iq =>
+          simp only [h4] at h
+          cases h5 : addOrSubtract t.2 iq with
+          | error e => simp only [h5] at h; cases e <;> cases h
+          | ok q' =>
+            simp only [h5] at h
+            cases h3 : multiplyByMonomial F rLast (degree t.1 - degree rLast) scale with
+            | error e => simp only [h3] at h; cases e <;> cases h
+            | ok term =>
+              simp only [h3] at h
+              cases h6 : addOrSubtract t.1 term with
+              | error e => simp only [h6] at h; cases e <;> cases h
+              | ok r' =>
+                simp only [h6, pure, Except.pure, stepE_ok] at h
+                cases h
+                exact ⟨addOrSubtract_ne ht.1 (multiplyByMonomial_ne h3) h6, addOrSubtract_ne ht.2 (buildMonomial_ne h4) h5⟩
+  · cases h
+
+/-- one round of the outer loop of `runEuclideanAlgorithm`, the inner division running on fuel `f`:
+    (rLast, r, tLast, t) ↦ (r, rLast mod r, t, q·t + tLast) -/
+def euclidBlk (F : GF.GF) (f : Nat) (rLast r tLast t : Poly) : DRes (Poly × Poly × Poly × Poly) := do
+  if isZero r then throw DErr.rLastZero
+  let dlt ← liftD (getCoefficient r (degree r))
+  let dltInverse ← liftD (F.inv dlt)
+  let qr ← liftD (euclidDivLoop F r dltInverse f [0] rLast)
+  let q ← liftD (multiply F qr.1 t)
+  let t' ← liftD (addOrSubtract q tLast)
+  if degree qr.2 ≥ degree r then throw DErr.illegalState
+  pure (r, qr.2, t, t')
+
+theorem euclidLoop_succ (F : GF.GF) (R m : Nat) (rLast r tLast t : Poly) :
+    euclidLoop F R (m + 1) rLast r tLast t =
+      if 2 * degree r ≥ R then
+        euclidBlk F (rLast.length + 1) rLast r tLast t >>= fun s => euclidLoop F R m s.1 s.2.1 s.2.2.1 s.2.2.2
+      else .ok (t, r) := by
+  rw [euclidLoop]
+  split
+  · unfold euclidBlk
+    by_cases hz : isZero r = true
+    · simp only [hz, if_true]; rfl
+    · simp only [hz, Bool.false_eq_true, if_false]
+      simp only [bind, Except.bind, pure, Except.pure]
+      cases liftD (getCoefficient r (degree r)) with
+      | error e => rfl
+      | ok dlt =>
+        simp only []
+        cases liftD (F.inv dlt) with
+        | error e => rfl
+        | ok dltInverse =>
+          simp only []
+          cases liftD (euclidDivLoop F r dltInverse (rLast.length + 1) [0] rLast) with
+          | error e => rfl
+          | ok qr =>
+            obtain ⟨q, r'⟩ := qr
+            simp only []
+            cases liftD (multiply F q t) with
+            | error e => rfl
+            | ok q2 =>
+              simp only []
+              cases liftD (addOrSubtract q2 tLast) with
+              | error e => rfl
+              | ok t' =>
+                simp only []
+                by_cases hd : degree r' ≥ degree r
+                · simp only [hd, if_true]; rfl
+                · simp only [hd, if_false]
+  · rfl
+
+theorem liftD_ne_fuel {α : Type} {r : Res α} (h : r ≠ .error .fuel) : liftD r ≠ .error (.base .fuel) := by
+  cases r with
+  | ok v => intro h2; cases h2
+  | error e => intro h2; simp only [liftD] at h2; cases h2; exact h rfl
+
+/-- the round does not depend on the inner fuel once that suffices -/
+theorem euclidBlk_mono (F : GF.GF) (f1 f2 : Nat) (hf : f1 ≤ f2) (rLast r tLast t : Poly)
+    (hnf : euclidBlk F f1 rLast r tLast t ≠ .error (.base .fuel)) :
+    euclidBlk F f2 rLast r tLast t = euclidBlk F f1 rLast r tLast t := by
+  unfold euclidBlk at hnf ⊢
+  by_cases hz : isZero r = true
+  · simp only [hz, if_true]; rfl
+  · simp only [hz, Bool.false_eq_true, if_false] at hnf ⊢
+    simp only [bind, Except.bind, pure, Except.pure] at hnf ⊢
+    cases h1 : liftD (getCoefficient r (degree r)) with
+    | error e => rfl
+    | ok dlt =>
+      simp only [h1] at hnf ⊢
+      cases h2 : liftD (F.inv dlt) with
+      | error e => rfl
+      | ok dltInverse =>
+        simp only [h2] at hnf ⊢
+        have hin : euclidDivLoop F r dltInverse f1 [0] rLast ≠ .error .fuel := by
+          intro h; rw [h] at hnf; exact hnf rfl
+        rw [euclidDivLoop_mono F r dltInverse f1 f2 [0] rLast hf hin]
+
+/-- what a successful round returns -/
+theorem euclidBlk_ok {F : GF.GF} {f : Nat} {rLast r tLast t : Poly} {s : Poly × Poly × Poly × Poly}
+    (h : euclidBlk F f rLast r tLast t = .ok s) : s.1 = r ∧ degree s.2.1 < degree r := by
+  unfold euclidBlk at h
+  by_cases hz : isZero r = true
+  · simp only [hz, if_true] at h; cases h
+  · simp only [hz, Bool.false_eq_true, if_false] at h
+    simp only [bind, Except.bind, pure, Except.pure] at h
+    cases h1 : liftD (getCoefficient r (degree r)) with
+    | error e => simp only [h1] at h; cases h
+    | ok dlt =>
+      simp only [h1] at h
+      cases h2 : liftD (F.inv dlt) with
+      | error e => simp only [h2] at h; cases h
+      | ok dltInverse =>
+        simp only [h2] at h
+        cases h3 : liftD (euclidDivLoop F r dltInverse f [0] rLast) with
+        | error e => simp only [h3] at h; cases h
+        | ok qr =>
+          simp only [h3] at h
+          cases h4 : liftD (multiply F qr.1 t) with
+          | error e => simp only [h4] at h; cases h
+          | ok q2 =>
+            simp only [h4] at h
+            cases h5 : liftD (addOrSubtract q2 tLast) with
+            | error e => simp only [h5] at h; cases h
+            | ok t' =>
+              simp only [h5] at h
+              by_cases hd : degree qr.2 ≥ degree r
+              · simp only [hd, if_true] at h; cases h
+              · simp only [hd, if_false] at h
+                cases h
+                refine ⟨rfl, ?_⟩
+                show degree qr.2 < degree r
+                omega
+
+/-- one round of the outer loop as a control value (state: rLast, r, tLast, t) -/
+def euclidStep (F : GF.GF) (R : Nat) (D : ρ) (f : Nat) (st : Poly × Poly × Poly × Poly) : Ctl (Poly × Poly × Poly × Poly) ρ :=
+  if 2 * degree st.2.1 ≥ R then stepD D (euclidBlk F f st.1 st.2.1 st.2.2.1 st.2.2.2) else .brk st
+
+/-- the outer loop on model states, inner divisions on fuel `f`, is the model's `euclidLoop` whenever that does not exhaust
+    its own budgets and `f` covers the lengths of the two remainders -/
+theorem euclid_run (F : GF.GF) (R : Nat) (D : ρ) (f : Nat) : ∀ (m : Nat) (rLast r tLast t : Poly) (n : Nat), m ≤ n →
+    rLast.length + 1 ≤ f → r.length + 1 ≤ f → euclidLoop F R m rLast r tLast t ≠ .error (.base .fuel) →
+    match euclidLoop F R m rLast r tLast t with
+    | .ok tr => ∃ rl tl, whileLoop (euclidStep F R D f) n (rLast, r, tLast, t) = .brk (rl, tr.2, tl, tr.1)
+    | .error e => whileLoop (euclidStep F R D f) n (rLast, r, tLast, t) = failD (.ret D) Ctl.panic e := by
+  intro m
+  induction m with
+  | zero => intro rLast r tLast t n _ _ _ h; exact absurd rfl h
+  | succ m ih =>
+    intro rLast r tLast t n hn hl1 hl2 hnf
+    obtain ⟨n, rfl⟩ : ∃ k, n = k + 1 := ⟨n - 1, by omega⟩
+    rw [euclidLoop_succ] at hnf ⊢
+    rw [whileLoop_succ]
+    simp only [euclidStep]
+    by_cases hc : 2 * degree r ≥ R
+    · simp only [hc, if_true] at hnf ⊢
+      have hblk : euclidBlk F (rLast.length + 1) rLast r tLast t ≠ .error (.base .fuel) := by
+        intro h; rw [h] at hnf; exact hnf rfl
+      rw [euclidBlk_mono F (rLast.length + 1) f hl1 rLast r tLast t hblk]
+      cases hb : euclidBlk F (rLast.length + 1) rLast r tLast t with
+      | error e =>
+        simp only [bind, Except.bind, stepD]
+        cases e with
+        | base fl => cases fl <;> rfl
+        | _ => rfl
+      | ok s =>
+        rw [hb] at hnf
+        simp only [bind, Except.bind, stepD] at hnf ⊢
+        obtain ⟨hs1, hs2⟩ := euclidBlk_ok hb
+        have := ih s.1 s.2.1 s.2.2.1 s.2.2.2 n (by omega) (by rw [hs1]; exact hl2) (by unfold degree at hs2; omega) hnf
+        exact this
+    · simp only [hc, if_false]
+      exact ⟨rLast, tLast, rfl⟩
+
 theorem while_map' (R : τ → σ) (f : τ → Ctl τ ρ) (t : τ) {body : σ → Ctl σ ρ} {s : σ} {n : Nat}
     (hs : s = R t) (hb : ∀ t, body (R t) = mapS R (f t)) :
     whileLoop body n s = mapS R (whileLoop f n t) := by
